@@ -9,7 +9,7 @@ Local Open Scope nat_scope.
 (* records                                                                             *)
 (* ================================================================================== *)
 
-Lemma st_eta s : mkSt (s_skip s) (s_after s) (s_allow s) (s_intr s) (s_dintr s) (s_rm s) (s_ev s) = s.
+Lemma st_eta s : mkSt (s_skip s) (s_after s) (s_allow s) (s_intr s) (s_dintr s) (s_rm s) (s_eng s) (s_ev s) = s.
 Proof. destruct s; reflexivity. Qed.
 
 Lemma add_rm_nil s : add_rm [] s = s.
@@ -22,51 +22,76 @@ Proof. destruct s; unfold add_rm; cbn. rewrite app_assoc. reflexivity. Qed.
 (* actions of a rule that fired                                                        *)
 (* ================================================================================== *)
 
-Lemma fold_acts eng p id acts : forall s,
-  fold_left (fl_apply_act eng p id) acts s =
+Lemma apply_act_eng p id s a : s_eng (fl_apply_act p id s a) = s_eng s.
+Proof. destruct s as [sk af al [i|] [d|] rm [| |] ev], a; reflexivity. Qed.
+
+Lemma fold_acts p id acts : forall s,
+  fold_left (fl_apply_act p id) acts s =
   mkSt (match fl_last_skip_opt acts with Some n => n | None => s_skip s end)
        (match fl_last_after acts with Some m => Some m | None => s_after s end)
-       (if eng then match fl_last_allow acts with Some sc => Some sc | None => s_allow s end else s_allow s)
-       (if eng && fl_has_deny acts && negb (is_some (s_intr s)) then Some (p, id) else s_intr s)
-       (if negb eng && fl_has_deny acts && negb (is_some (s_dintr s)) then Some (p, id) else s_dintr s)
-       (s_rm s) (s_ev s).
+       (match s_eng s with
+        | MOn => match fl_last_allow acts with Some sc => Some sc | None => s_allow s end
+        | _ => s_allow s
+        end)
+       (match s_eng s with
+        | MOn => if fl_has_deny acts && negb (is_some (s_intr s)) then Some (p, id) else s_intr s
+        | _ => s_intr s
+        end)
+       (match s_eng s with
+        | MDet => if fl_has_deny acts && negb (is_some (s_dintr s)) then Some (p, id) else s_dintr s
+        | _ => s_dintr s
+        end)
+       (s_rm s) (s_eng s) (s_ev s).
 Proof.
   induction acts as [|a t IH]; intro s.
-  - destruct eng, s; reflexivity.
+  - destruct s as [sk af al i d rm [| |] ev]; reflexivity.
   - cbn [fold_left]. rewrite IH. unfold fl_has_deny.
     cbn [fl_last_skip_opt fl_last_after fl_last_allow existsb].
     fold (fl_has_deny t).
-    destruct s as [sk af al [i|] [d|] rm ev];
-      destruct a, eng, (fl_last_skip_opt t), (fl_last_after t), (fl_last_allow t), (fl_has_deny t); reflexivity.
+    destruct s as [sk af al [i|] [d|] rm [| |] ev];
+      destruct a, (fl_last_skip_opt t), (fl_last_after t), (fl_last_allow t), (fl_has_deny t); reflexivity.
 Qed.
 
 Lemma walk_spec req ls : forall s,
-  fl_walk req ls s = (forallb (fl_link_matches req) ls, add_rm (fl_prefix_rm req ls) s).
+  fl_walk req ls s = (forallb (fl_link_matches req) ls,
+                      set_eng (fl_prefix_eng req ls (s_eng s)) (add_rm (fl_prefix_rm req ls) s)).
 Proof.
-  induction ls as [|l t IH]; intro s; cbn [fl_walk forallb fl_prefix_rm].
-  - rewrite add_rm_nil. reflexivity.
+  induction ls as [|l t IH]; intro s; cbn [fl_walk forallb fl_prefix_rm fl_prefix_eng].
+  - destruct s; unfold set_eng, add_rm; cbn. rewrite app_nil_r. reflexivity.
   - destruct (fl_link_matches req l); cbn [andb].
-    + rewrite IH, add_rm_add_rm. reflexivity.
-    + rewrite add_rm_nil. reflexivity.
+    + rewrite IH. f_equal. unfold fl_link_ctl.
+      destruct s as [sk af al i d rm e ev]; destruct (l_eng l); unfold set_eng, add_rm; cbn;
+        rewrite app_assoc; reflexivity.
+    + destruct s; unfold set_eng, add_rm; cbn. rewrite app_nil_r. reflexivity.
 Qed.
 
 Notation fired_acts := fl_fired_acts.
 
-Lemma evaluate_spec eng req p r s :
-  fl_evaluate eng req p r s =
+Lemma evaluate_spec req p r s :
+  fl_evaluate req p r s =
   let acts := fired_acts req r in
+  let eng := fl_prefix_eng req (r_links r) (s_eng s) in
   mkSt (match fl_last_skip_opt acts with Some n => n | None => s_skip s end)
        (match fl_last_after acts with Some m => Some m | None => s_after s end)
-       (if eng then match fl_last_allow acts with Some sc => Some sc | None => s_allow s end else s_allow s)
-       (if eng && fl_has_deny acts && negb (is_some (s_intr s)) then Some (p, r_id r) else s_intr s)
-       (if negb eng && fl_has_deny acts && negb (is_some (s_dintr s)) then Some (p, r_id r) else s_dintr s)
-       (s_rm s ++ fl_prefix_rm req (r_links r))
+       (match eng with
+        | MOn => match fl_last_allow acts with Some sc => Some sc | None => s_allow s end
+        | _ => s_allow s
+        end)
+       (match eng with
+        | MOn => if fl_has_deny acts && negb (is_some (s_intr s)) then Some (p, r_id r) else s_intr s
+        | _ => s_intr s
+        end)
+       (match eng with
+        | MDet => if fl_has_deny acts && negb (is_some (s_dintr s)) then Some (p, r_id r) else s_dintr s
+        | _ => s_dintr s
+        end)
+       (s_rm s ++ fl_prefix_rm req (r_links r)) eng
        (s_ev s ++ [Ev p (r_id r) (fl_all_match req r && negb (r_id r =? 0))]).
 Proof.
   unfold fl_evaluate, fl_fired_acts, fl_all_match. rewrite walk_spec.
   destruct (forallb (fl_link_matches req) (r_links r)).
   - rewrite fold_acts. destruct s; reflexivity.
-  - destruct eng, s; reflexivity.
+  - destruct s; cbn. destruct (fl_prefix_eng req (r_links r) s_eng); reflexivity.
 Qed.
 
 (* ================================================================================== *)
@@ -79,7 +104,7 @@ Definition arel (p : nat) (a b : option fl_scope) : Prop :=
   a = b \/ (3 <= p /\ a = Some ScRequest /\ b = None).
 
 Definition rel_rest (s : fl_st) (g : fl_g) : Prop :=
-  s_intr s = g_intr g /\ s_dintr s = g_dintr g /\ s_rm s = g_rm g /\ s_ev s = g_ev g.
+  s_intr s = g_intr g /\ s_dintr s = g_dintr g /\ s_rm s = g_rm g /\ s_eng s = g_eng g /\ s_ev s = g_ev g.
 
 Definition rel (p : nat) (s : fl_st) (g : fl_g) : Prop := arel p (s_allow s) (g_allow g) /\ rel_rest s g.
 
@@ -118,11 +143,11 @@ Proof.
   destruct (Nat.leb_spec p 2); [lia | reflexivity].
 Qed.
 
-Lemma spec_go_nil f eng req p g : fl_spec_go f eng req p [] g = g.
+Lemma spec_go_nil f req p g : fl_spec_go f req p [] g = g.
 Proof. destruct f; reflexivity. Qed.
 
-Lemma spec_go_halted f eng req p l g :
-  is_some (g_intr g) && negb (p =? 5) = true -> fl_spec_go f eng req p l g = g.
+Lemma spec_go_halted f req p l g :
+  is_some (g_intr g) && negb (p =? 5) = true -> fl_spec_go f req p l g = g.
 Proof. intro H. destruct f; [reflexivity|]. destruct l; cbn [fl_spec_go]; [reflexivity|]. rewrite H. reflexivity. Qed.
 
 Lemma agenda_cons p rm r rest :
@@ -158,7 +183,7 @@ Qed.
 Lemma filter_length {A} (f : A -> bool) l : length (filter f l) <= length l.
 Proof. induction l as [|x t IH]; cbn [filter length]; [lia|]. destruct (f x); cbn [length]; lia. Qed.
 
-Lemma resume_length eng req p r g rest : length (fl_resume eng req p r g rest) <= length rest.
+Lemma resume_length req p r g rest : length (fl_resume req p r g rest) <= length rest.
 Proof.
   unfold fl_resume.
   destruct (fl_blocks (g_allow g) p); cbn [length]; [lia|].
@@ -170,28 +195,28 @@ Proof.
 Qed.
 
 (* evaluating r keeps the two sides related *)
-Lemma evaluate_fire_rel eng req p r s g :
-  rel p s g -> rel p (fl_evaluate eng req p r s) (fl_fire eng req p r g).
+Lemma evaluate_fire_rel req p r s g :
+  rel p s g -> rel p (fl_evaluate req p r s) (fl_fire req p r g).
 Proof.
-  intros [A (I & D & RM & EV)]. rewrite evaluate_spec. unfold fl_fire, fl_fired_acts, rel, rel_rest. cbn.
-  rewrite I, D, RM, EV. repeat split.
-  destruct eng; [|exact A].
+  intros [A (I & D & RM & EN & EV)]. rewrite evaluate_spec. unfold fl_fire, fl_fired_acts, rel, rel_rest. cbn.
+  rewrite I, D, RM, EN, EV. repeat split.
+  destruct (fl_prefix_eng req (r_links r) (g_eng g)); try exact A.
   destruct (fl_last_allow (if fl_all_match req r then r_acts r else [])); [left; reflexivity | exact A].
 Qed.
 
 (* ... and leaves, as residual work, exactly the rewritten agenda *)
-Lemma residual_after_evaluate eng req p r s g rest :
+Lemma residual_after_evaluate req p r s g rest :
   rel p s g -> s_skip s = 0 -> s_after s = None ->
-  residual p (fl_evaluate eng req p r s) rest =
-  fl_resume eng req p r (fl_fire eng req p r g) (fl_agenda p (s_rm s) rest).
+  residual p (fl_evaluate req p r s) rest =
+  fl_resume req p r (fl_fire req p r g) (fl_agenda p (s_rm s) rest).
 Proof.
   intros R SK AF.
-  pose proof (evaluate_fire_rel eng req p r s g R) as [A' (_ & _ & RM' & _)].
+  pose proof (evaluate_fire_rel req p r s g R) as [A' (_ & _ & RM' & _)].
   unfold residual, fl_resume.
   rewrite (blocks_arel _ _ _ A'), RM'.
-  destruct (fl_blocks (g_allow (fl_fire eng req p r g)) p); [reflexivity|].
-  assert (AG : fl_agenda p (g_rm (fl_fire eng req p r g)) rest =
-               filter (fl_live (g_rm (fl_fire eng req p r g))) (fl_agenda p (s_rm s) rest)).
+  destruct (fl_blocks (g_allow (fl_fire req p r g)) p); [reflexivity|].
+  assert (AG : fl_agenda p (g_rm (fl_fire req p r g)) rest =
+               filter (fl_live (g_rm (fl_fire req p r g))) (fl_agenda p (s_rm s) rest)).
   { destruct R as [_ (_ & _ & RM & _)]. unfold fl_fire; cbn [g_rm]. rewrite <- RM.
     unfold fl_agenda. rewrite filter_live_app. reflexivity. }
   rewrite AG. rewrite evaluate_spec. cbn [s_skip s_after]. unfold fl_fired_acts, fl_last_skip.
@@ -199,9 +224,9 @@ Proof.
   destruct (fl_last_after (if fl_all_match req r then r_acts r else [])); reflexivity.
 Qed.
 
-Lemma loop_refines eng req p : 1 <= p <= 5 -> forall rest s g f,
+Lemma loop_refines req p : 1 <= p <= 5 -> forall rest s g f,
   rel p s g -> length (residual p s rest) <= f ->
-  rel_post p (fl_eval_loop eng req p rest s) (fl_spec_go f eng req p (residual p s rest) g).
+  rel_post p (fl_eval_loop req p rest s) (fl_spec_go f req p (residual p s rest) g).
 Proof.
   intro HP. induction rest as [|r rest IH]; intros s g f R LEN.
   - cbn [fl_eval_loop]. unfold residual, fl_agenda. cbn [filter].
@@ -262,11 +287,11 @@ Proof.
     assert (HG : is_some (g_intr g) && negb (p =? 5) = false).
     { unfold fl_halted in HALT. destruct R as [_ (I & _)]. rewrite <- I. exact HALT. }
     rewrite HG.
-    rewrite <- (residual_after_evaluate eng req p r s g rest R SK AF).
+    rewrite <- (residual_after_evaluate req p r s g rest R SK AF).
     apply IH.
     + apply evaluate_fire_rel; exact R.
-    + rewrite (residual_after_evaluate eng req p r s g rest R SK AF).
-      pose proof (resume_length eng req p r (fl_fire eng req p r g) (fl_agenda p (s_rm s) rest)). lia.
+    + rewrite (residual_after_evaluate req p r s g rest R SK AF).
+      pose proof (resume_length req p r (fl_fire req p r g) (fl_agenda p (s_rm s) rest)). lia.
 Qed.
 
 (* ---- phases ---- *)
@@ -286,22 +311,22 @@ Lemma residual_clean p s rs : clean s ->
   residual p s rs = if fl_blocks (s_allow s) p then [] else fl_agenda p (s_rm s) rs.
 Proof. intros [SK AF]. unfold residual. rewrite SK, AF. reflexivity. Qed.
 
-Lemma phase_refines eng req rs p s g : 1 <= p <= 5 -> rel p s g -> clean s ->
-  rel (S p) (fl_eval_phase eng req p rs s) (fl_spec_phase eng req rs g p)
-  /\ clean (fl_eval_phase eng req p rs s).
+Lemma phase_refines req rs p s g : 1 <= p <= 5 -> rel p s g -> clean s ->
+  rel (S p) (fl_eval_phase req p rs s) (fl_spec_phase req rs g p)
+  /\ clean (fl_eval_phase req p rs s).
 Proof.
   intros HP R CL. split; [|apply end_phase_clean].
   unfold fl_eval_phase, fl_spec_phase.
   set (g1 := if fl_blocks (g_allow g) p then g
-             else fl_spec_go (length (fl_agenda p (g_rm g) rs)) eng req p (fl_agenda p (g_rm g) rs) g).
-  assert (POST : rel_post p (fl_eval_loop eng req p rs s) g1).
-  { pose proof (loop_refines eng req p HP rs s g (length (residual p s rs)) R (le_n _)) as L.
+             else fl_spec_go (length (fl_agenda p (g_rm g) rs)) req p (fl_agenda p (g_rm g) rs) g).
+  assert (POST : rel_post p (fl_eval_loop req p rs s) g1).
+  { pose proof (loop_refines req p HP rs s g (length (residual p s rs)) R (le_n _)) as L.
     rewrite (residual_clean p s rs CL) in L.
     destruct R as [A (I & D & RM & EV)].
     rewrite (blocks_arel _ _ _ A), RM in L. subst g1.
     destruct (fl_blocks (g_allow g) p); [rewrite spec_go_nil in L|]; exact L. }
   clearbody g1. destruct POST as [A (I & D & RM & EV)].
-  set (s1 := fl_eval_loop eng req p rs s) in *. clearbody s1.
+  set (s1 := fl_eval_loop req p rs s) in *. clearbody s1.
   unfold fl_end_phase, rel, rel_rest.
   assert (HA : arel (S p)
       (s_allow (set_after None (set_skip 0 match s_allow s1 with Some ScPhase => set_allow None s1 | _ => s1 end)))
@@ -320,9 +345,9 @@ Proof.
   destruct (s_allow s1) as [[| |]|]; cbn; repeat split; assumption.
 Qed.
 
-Lemma guarded_refines eng req rs p s g : 1 <= p <= 5 -> rel p s g -> clean s ->
-  rel (S p) (fl_guarded_phase eng req rs s p) (fl_spec_guarded eng req rs g p)
-  /\ clean (fl_guarded_phase eng req rs s p).
+Lemma guarded_refines req rs p s g : 1 <= p <= 5 -> rel p s g -> clean s ->
+  rel (S p) (fl_guarded_phase req rs s p) (fl_spec_guarded req rs g p)
+  /\ clean (fl_guarded_phase req rs s p).
 Proof.
   intros HP R CL. unfold fl_guarded_phase, fl_spec_guarded.
   assert (E : is_some (s_intr s) = is_some (g_intr g)). { destruct R as [_ (I & _)]. rewrite I. reflexivity. }
@@ -334,15 +359,15 @@ Qed.
 Lemma init_rel : rel 1 fl_init fl_ginit /\ clean fl_init.
 Proof. repeat split. left. reflexivity. Qed.
 
-Theorem refines_spec eng req rs : fl_obs (fl_run eng req rs) = fl_gobs (fl_spec_run eng req rs).
+Theorem refines_spec req rs : fl_obs (fl_run eng req rs) = fl_gobs (fl_spec_run eng req rs).
 Proof.
   unfold fl_run, fl_spec_run. cbn [fold_left].
   destruct init_rel as [R1 C1].
-  destruct (guarded_refines eng req rs 1 _ _ ltac:(lia) R1 C1) as [R2 C2].
-  destruct (guarded_refines eng req rs 2 _ _ ltac:(lia) R2 C2) as [R3 C3].
-  destruct (guarded_refines eng req rs 3 _ _ ltac:(lia) R3 C3) as [R4 C4].
-  destruct (guarded_refines eng req rs 4 _ _ ltac:(lia) R4 C4) as [R5 C5].
-  destruct (phase_refines eng req rs 5 _ _ ltac:(lia) R5 C5) as [[_ (I & D & _ & EV)] _].
+  destruct (guarded_refines req rs 1 _ _ ltac:(lia) R1 C1) as [R2 C2].
+  destruct (guarded_refines req rs 2 _ _ ltac:(lia) R2 C2) as [R3 C3].
+  destruct (guarded_refines req rs 3 _ _ ltac:(lia) R3 C3) as [R4 C4].
+  destruct (guarded_refines req rs 4 _ _ ltac:(lia) R4 C4) as [R5 C5].
+  destruct (phase_refines req rs 5 _ _ ltac:(lia) R5 C5) as [[_ (I & D & _ & EV)] _].
   unfold fl_obs, fl_gobs. rewrite I, D, EV. reflexivity.
 Qed.
 
@@ -350,15 +375,15 @@ Qed.
 (* theorems about the coded loop                                                       *)
 (* ================================================================================== *)
 
-Lemma halted_loop eng req p l s : fl_halted p s = true -> fl_eval_loop eng req p l s = s.
+Lemma halted_loop req p l s : fl_halted p s = true -> fl_eval_loop req p l s = s.
 Proof. intro H. destruct l; cbn [fl_eval_loop]; [reflexivity | rewrite H; reflexivity]. Qed.
 
 (* ---- no effect across phases ---- *)
 
 (* a rule of another phase is invisible to the loop of phase p: it is not evaluated, not counted by
    skip, not looked at by skipAfter *)
-Theorem other_phase_invisible eng req p r' : fl_in_phase p r' = false -> forall pre post s,
-  fl_eval_loop eng req p (pre ++ r' :: post) s = fl_eval_loop eng req p (pre ++ post) s.
+Theorem other_phase_invisible req p r' : fl_in_phase p r' = false -> forall pre post s,
+  fl_eval_loop req p (pre ++ r' :: post) s = fl_eval_loop req p (pre ++ post) s.
 Proof.
   intros NP. induction pre as [|x pre IH]; intros post s; cbn [app fl_eval_loop].
   - rewrite NP. cbn [negb]. destruct (fl_halted p s) eqn:H; [|reflexivity].
@@ -374,10 +399,10 @@ Qed.
 
 (* whatever state a phase starts in, it ends without skip counter, without pending marker and
    without allow:phase *)
-Theorem phase_end_boundary eng req p rs s : fl_boundary (fl_eval_phase eng req p rs s).
+Theorem phase_end_boundary req p rs s : fl_boundary (fl_eval_phase req p rs s).
 Proof.
   unfold fl_eval_phase, fl_end_phase, fl_boundary.
-  destruct (s_allow (fl_eval_loop eng req p rs s)) as [[| |]|] eqn:E; cbn; rewrite ?E; repeat split; congruence.
+  destruct (s_allow (fl_eval_loop req p rs s)) as [[| |]|] eqn:E; cbn; rewrite ?E; repeat split; congruence.
 Qed.
 
 (* ---- skip ---- *)
@@ -391,9 +416,9 @@ Proof. destruct s as [sk af [[| |]|] i d rm ev]; reflexivity. Qed.
 Lemma set_skip_same s : set_skip (s_skip s) s = s.
 Proof. destruct s; reflexivity. Qed.
 
-Lemma skip_drop eng req p : forall rest s, s_after s = None ->
-  fl_end_phase (fl_eval_loop eng req p rest s) =
-  fl_end_phase (fl_eval_loop eng req p (fl_drop_entries p (s_rm s) (s_skip s) rest) (set_skip 0 s)).
+Lemma skip_drop req p : forall rest s, s_after s = None ->
+  fl_end_phase (fl_eval_loop req p rest s) =
+  fl_end_phase (fl_eval_loop req p (fl_drop_entries p (s_rm s) (s_skip s) rest) (set_skip 0 s)).
 Proof.
   induction rest as [|x t IH]; intros s AF.
   - cbn. rewrite end_phase_set_skip. reflexivity.
@@ -411,20 +436,20 @@ Proof.
     rewrite (IH (set_skip k s) AF). reflexivity.
 Qed.
 
-Lemma loop_evaluated eng req p r rest s :
+Lemma loop_evaluated req p r rest s :
   s_skip s = 0 -> s_after s = None -> fl_halted p s = false -> fl_in_phase p r = true ->
   fl_removed s r = false -> fl_allow_break p s = None ->
-  fl_eval_loop eng req p (r :: rest) s = fl_eval_loop eng req p rest (fl_evaluate eng req p r s).
+  fl_eval_loop req p (r :: rest) s = fl_eval_loop req p rest (fl_evaluate req p r s).
 Proof. intros SK AF H IP RM AB. cbn [fl_eval_loop]. rewrite H, IP, RM, AF, SK, AB. reflexivity. Qed.
 
 (* skip:N — the phase goes on exactly as if the next N entries of this phase were not there *)
-Theorem skip_exact eng req p r rest s :
+Theorem skip_exact req p r rest s :
   s_skip s = 0 -> s_after s = None -> fl_halted p s = false -> fl_in_phase p r = true ->
   fl_removed s r = false -> fl_allow_break p s = None ->
   fl_last_after (fl_fired_acts req r) = None ->
-  let s1 := fl_evaluate eng req p r s in
-  fl_eval_phase eng req p (r :: rest) s =
-  fl_eval_phase eng req p (fl_drop_entries p (s_rm s1) (fl_last_skip (fl_fired_acts req r)) rest) (set_skip 0 s1).
+  let s1 := fl_evaluate req p r s in
+  fl_eval_phase req p (r :: rest) s =
+  fl_eval_phase req p (fl_drop_entries p (s_rm s1) (fl_last_skip (fl_fired_acts req r)) rest) (set_skip 0 s1).
 Proof.
   intros SK AF H IP RM AB LA s1. unfold fl_eval_phase.
   rewrite loop_evaluated by assumption. fold s1.
@@ -432,14 +457,14 @@ Proof.
   { unfold s1. rewrite evaluate_spec. cbn. rewrite LA. exact AF. }
   assert (S1 : s_skip s1 = fl_last_skip (fl_fired_acts req r)).
   { unfold s1. rewrite evaluate_spec. cbn. unfold fl_last_skip. rewrite SK. reflexivity. }
-  rewrite (skip_drop eng req p rest s1 A1), S1. reflexivity.
+  rewrite (skip_drop req p rest s1 A1), S1. reflexivity.
 Qed.
 
 (* ---- skipAfter ---- *)
 
-Lemma after_drop eng req p : forall rest s m, s_after s = Some m ->
-  fl_end_phase (fl_eval_loop eng req p rest s) =
-  fl_end_phase (fl_eval_loop eng req p (fl_after_entry p (s_rm s) m rest) (set_after None s)).
+Lemma after_drop req p : forall rest s m, s_after s = Some m ->
+  fl_end_phase (fl_eval_loop req p rest s) =
+  fl_end_phase (fl_eval_loop req p (fl_after_entry p (s_rm s) m rest) (set_after None s)).
 Proof.
   induction rest as [|x t IH]; intros s m AF.
   - cbn. rewrite end_phase_set_after. reflexivity.
@@ -457,13 +482,13 @@ Qed.
 
 (* skipAfter:M — the phase resumes after the first later live marker M (a skip count of the same rule
    then applies from there); without such a marker nothing more is evaluated in this phase *)
-Theorem skipafter_resume eng req p r rest s m :
+Theorem skipafter_resume req p r rest s m :
   s_skip s = 0 -> s_after s = None -> fl_halted p s = false -> fl_in_phase p r = true ->
   fl_removed s r = false -> fl_allow_break p s = None ->
   fl_last_after (fl_fired_acts req r) = Some m ->
-  let s1 := fl_evaluate eng req p r s in
-  fl_eval_phase eng req p (r :: rest) s =
-  fl_eval_phase eng req p (fl_after_entry p (s_rm s1) m rest) (set_after None s1).
+  let s1 := fl_evaluate req p r s in
+  fl_eval_phase req p (r :: rest) s =
+  fl_eval_phase req p (fl_after_entry p (s_rm s1) m rest) (set_after None s1).
 Proof.
   intros SK AF H IP RM AB LA s1. unfold fl_eval_phase.
   rewrite loop_evaluated by assumption. fold s1.
@@ -472,16 +497,16 @@ Proof.
   apply after_drop. exact A1.
 Qed.
 
-Corollary skipafter_absent eng req p r rest s m :
+Corollary skipafter_absent req p r rest s m :
   s_skip s = 0 -> s_after s = None -> fl_halted p s = false -> fl_in_phase p r = true ->
   fl_removed s r = false -> fl_allow_break p s = None ->
   fl_last_after (fl_fired_acts req r) = Some m ->
-  let s1 := fl_evaluate eng req p r s in
+  let s1 := fl_evaluate req p r s in
   fl_after_entry p (s_rm s1) m rest = [] ->
-  fl_eval_phase eng req p (r :: rest) s = fl_end_phase s1.
+  fl_eval_phase req p (r :: rest) s = fl_end_phase s1.
 Proof.
   intros SK AF H IP RM AB LA s1 E.
-  unfold s1 in *. rewrite (skipafter_resume eng req p r rest s m) by assumption.
+  unfold s1 in *. rewrite (skipafter_resume req p r rest s m) by assumption.
   rewrite E. unfold fl_eval_phase. cbn [fl_eval_loop]. apply end_phase_set_after.
 Qed.
 
@@ -491,9 +516,9 @@ Lemma end_phase_obs s : fl_obs (fl_end_phase s) = fl_obs s /\ s_rm (fl_end_phase
 Proof. destruct s as [sk af [[| |]|] i d rm ev]; split; reflexivity. Qed.
 
 (* while an allow covering phase p is in force the loop evaluates nothing *)
-Lemma blocked_loop eng req p : 1 <= p <= 5 -> forall rest s,
+Lemma blocked_loop req p : 1 <= p <= 5 -> forall rest s,
   fl_blocks (s_allow s) p = true ->
-  let s' := fl_eval_loop eng req p rest s in
+  let s' := fl_eval_loop req p rest s in
   fl_obs s' = fl_obs s /\ s_rm s' = s_rm s /\
   (s_allow s' = s_allow s \/ (p = 2 /\ s_allow s = Some ScRequest /\ s_allow s' = None)).
 Proof.
@@ -515,13 +540,13 @@ Qed.
 
 (* an allow covering phase q (bare allow: q <= 4, allow:request: q <= 2, allow:phase: its own phase)
    that is in force when phase q starts: nothing of phase q is evaluated *)
-Theorem allow_blocks_phase eng req q rs s : 1 <= q <= 5 ->
+Theorem allow_blocks_phase req q rs s : 1 <= q <= 5 ->
   fl_blocks (s_allow s) q = true ->
-  fl_obs (fl_eval_phase eng req q rs s) = fl_obs s /\ s_rm (fl_eval_phase eng req q rs s) = s_rm s.
+  fl_obs (fl_eval_phase req q rs s) = fl_obs s /\ s_rm (fl_eval_phase req q rs s) = s_rm s.
 Proof.
   intros HQ B. unfold fl_eval_phase.
-  destruct (blocked_loop eng req q HQ rs s B) as (O & R & _).
-  destruct (end_phase_obs (fl_eval_loop eng req q rs s)) as [O' R'].
+  destruct (blocked_loop req q HQ rs s B) as (O & R & _).
+  destruct (end_phase_obs (fl_eval_loop req q rs s)) as [O' R'].
   rewrite O', R'. split; assumption.
 Qed.
 
@@ -530,23 +555,23 @@ Lemma end_phase_allow s :
 Proof. destruct s as [sk af [[| |]|] i d rm ev]; reflexivity. Qed.
 
 (* bare allow stays in force across phases *)
-Theorem allow_all_persists eng req q rs s : 1 <= q <= 4 ->
-  s_allow s = Some ScAll -> s_allow (fl_eval_phase eng req q rs s) = Some ScAll.
+Theorem allow_all_persists req q rs s : 1 <= q <= 4 ->
+  s_allow s = Some ScAll -> s_allow (fl_eval_phase req q rs s) = Some ScAll.
 Proof.
   intros HQ A. unfold fl_eval_phase.
   assert (B : fl_blocks (s_allow s) q = true).
   { rewrite A. cbn. apply Nat.leb_le. lia. }
-  destruct (blocked_loop eng req q ltac:(lia) rs s B) as (_ & _ & [E | (_ & E & _)]); [|congruence].
+  destruct (blocked_loop req q ltac:(lia) rs s B) as (_ & _ & [E | (_ & E & _)]); [|congruence].
   rewrite end_phase_allow, E, A. reflexivity.
 Qed.
 
 (* allow:request set in phase 1 is still in force in phase 2 *)
-Theorem allow_request_persists eng req rs s :
-  s_allow s = Some ScRequest -> s_allow (fl_eval_phase eng req 1 rs s) = Some ScRequest.
+Theorem allow_request_persists req rs s :
+  s_allow s = Some ScRequest -> s_allow (fl_eval_phase req 1 rs s) = Some ScRequest.
 Proof.
   intros A. unfold fl_eval_phase.
   assert (B : fl_blocks (s_allow s) 1 = true) by (rewrite A; reflexivity).
-  destruct (blocked_loop eng req 1 ltac:(lia) rs s B) as (_ & _ & [E | (E & _)]); [|discriminate].
+  destruct (blocked_loop req 1 ltac:(lia) rs s B) as (_ & _ & [E | (E & _)]); [|discriminate].
   rewrite end_phase_allow, E, A. reflexivity.
 Qed.
 
@@ -555,26 +580,26 @@ Theorem allow_ends_phase req p r rest s sc : 1 <= p <= 5 ->
   s_skip s = 0 -> s_after s = None -> fl_halted p s = false -> fl_in_phase p r = true ->
   fl_removed s r = false -> fl_allow_break p s = None ->
   fl_last_allow (fl_fired_acts req r) = Some sc -> fl_blocks (Some sc) p = true ->
-  let s1 := fl_evaluate true req p r s in
-  fl_obs (fl_eval_phase true req p (r :: rest) s) = fl_obs s1 /\
-  s_rm (fl_eval_phase true req p (r :: rest) s) = s_rm s1.
+  let s1 := fl_evaluate req p r s in
+  fl_obs (fl_eval_phase req p (r :: rest) s) = fl_obs s1 /\
+  s_rm (fl_eval_phase req p (r :: rest) s) = s_rm s1.
 Proof.
   intros HP SK AF H IP RM AB LA BL s1. unfold fl_eval_phase.
   rewrite loop_evaluated by assumption. fold s1.
   assert (A1 : s_allow s1 = Some sc).
   { unfold s1. rewrite evaluate_spec. cbn. rewrite LA. reflexivity. }
   assert (B : fl_blocks (s_allow s1) p = true) by (rewrite A1; exact BL).
-  destruct (blocked_loop true req p HP rest s1 B) as (O & R & _).
-  destruct (end_phase_obs (fl_eval_loop true req p rest s1)) as [O' R'].
+  destruct (blocked_loop req p HP rest s1 B) as (O & R & _).
+  destruct (end_phase_obs (fl_eval_loop req p rest s1)) as [O' R'].
   rewrite O', R'. split; assumption.
 Qed.
 
 Definition g_of (s : fl_st) : fl_g := mkG (s_allow s) (s_intr s) (s_dintr s) (s_rm s) (s_ev s).
 
 (* from the response phases on, a carried allow:request is without effect *)
-Theorem allow_request_expired eng req q rs s : 3 <= q <= 5 ->
+Theorem allow_request_expired req q rs s : 3 <= q <= 5 ->
   s_skip s = 0 -> s_after s = None -> s_allow s = Some ScRequest ->
-  fl_obs (fl_eval_phase eng req q rs s) = fl_obs (fl_eval_phase eng req q rs (set_allow None s)).
+  fl_obs (fl_eval_phase req q rs s) = fl_obs (fl_eval_phase req q rs (set_allow None s)).
 Proof.
   intros HQ SK AF A.
   set (g := g_of (set_allow None s)).
@@ -582,8 +607,8 @@ Proof.
   { split; [right; repeat split; [lia | exact A] | repeat split]. }
   assert (R2 : rel q (set_allow None s) g).
   { split; [left; reflexivity | repeat split]. }
-  destruct (phase_refines eng req rs q s g ltac:(lia) R1 (conj SK AF)) as [[_ (I1 & D1 & _ & E1)] _].
-  destruct (phase_refines eng req rs q (set_allow None s) g ltac:(lia) R2 (conj SK AF)) as [[_ (I2 & D2 & _ & E2)] _].
+  destruct (phase_refines req rs q s g ltac:(lia) R1 (conj SK AF)) as [[_ (I1 & D1 & _ & E1)] _].
+  destruct (phase_refines req rs q (set_allow None s) g ltac:(lia) R2 (conj SK AF)) as [[_ (I2 & D2 & _ & E2)] _].
   unfold fl_obs. rewrite I1, D1, E1, I2, D2, E2. reflexivity.
 Qed.
 
@@ -603,8 +628,8 @@ Proof. intros (A & B & C & D & E). repeat split; assumption. Qed.
 Lemma log_rel_set_skip e1 e2 s1 s2 k : log_rel e1 e2 s1 s2 -> log_rel e1 e2 (set_skip k s1) (set_skip k s2).
 Proof. intros (A & B & C & D & E). repeat split; assumption. Qed.
 
-Lemma log_rel_evaluate eng req r e1 e2 s1 s2 :
-  log_rel e1 e2 s1 s2 -> log_rel e1 e2 (fl_evaluate eng req 5 r s1) (fl_evaluate eng req 5 r s2).
+Lemma log_rel_evaluate req r e1 e2 s1 s2 :
+  log_rel e1 e2 s1 s2 -> log_rel e1 e2 (fl_evaluate req 5 r s1) (fl_evaluate req 5 r s2).
 Proof.
   intros (SK & AF & RM & AL & d & E1 & E2). rewrite !evaluate_spec. unfold log_rel. cbn.
   rewrite SK, AF, RM. repeat split.
@@ -614,8 +639,8 @@ Proof.
     rewrite E1, E2, !app_assoc. split; reflexivity.
 Qed.
 
-Lemma log_loop eng req e1 e2 : forall rest s1 s2, log_rel e1 e2 s1 s2 ->
-  log_rel e1 e2 (fl_eval_loop eng req 5 rest s1) (fl_eval_loop eng req 5 rest s2).
+Lemma log_loop req e1 e2 : forall rest s1 s2, log_rel e1 e2 s1 s2 ->
+  log_rel e1 e2 (fl_eval_loop req 5 rest s1) (fl_eval_loop req 5 rest s2).
 Proof.
   induction rest as [|x t IH]; intros s1 s2 R; cbn [fl_eval_loop]; [exact R|].
   assert (H1 : fl_halted 5 s1 = false) by (unfold fl_halted; cbn; apply andb_false_r).
@@ -642,30 +667,30 @@ Proof. destruct s as [sk af [[| |]|] i d rm ev]; reflexivity. Qed.
 
 (* whatever allow scope and interruption a transaction carries into the logging phase, the logging
    phase evaluates exactly what a fresh transaction (with the same per-transaction removals) would *)
-Theorem logging_independent eng req rs s : fl_boundary s ->
-  s_ev (fl_eval_phase eng req 5 rs s) = s_ev s ++ s_ev (fl_eval_phase eng req 5 rs (fl_fresh (s_rm s))).
+Theorem logging_independent req rs s : fl_boundary s ->
+  s_ev (fl_eval_phase req 5 rs s) = s_ev s ++ s_ev (fl_eval_phase req 5 rs (fl_fresh (s_rm s))).
 Proof.
   intros (SK & AF & NP). unfold fl_eval_phase. rewrite !end_phase_ev.
   assert (R : log_rel (s_ev s) [] s (fl_fresh (s_rm s))).
   { unfold log_rel, fl_fresh; cbn. repeat split; try assumption.
     - right. split; [exact NP | discriminate].
     - exists []. rewrite app_nil_r. split; reflexivity. }
-  destruct (log_loop eng req _ _ rs _ _ R) as (_ & _ & _ & _ & d & E1 & E2).
+  destruct (log_loop req _ _ rs _ _ R) as (_ & _ & _ & _ & d & E1 & E2).
   rewrite E1, E2. reflexivity.
 Qed.
 
-Lemma guarded_boundary eng req rs s p : fl_boundary s -> fl_boundary (fl_guarded_phase eng req rs s p).
+Lemma guarded_boundary req rs s p : fl_boundary s -> fl_boundary (fl_guarded_phase req rs s p).
 Proof.
   intro B. unfold fl_guarded_phase. destruct (is_some (s_intr s)); [exact B | apply phase_end_boundary].
 Qed.
 
-Theorem logging_always_runs eng req rs : exists s4,
+Theorem logging_always_runs req rs : exists s4,
   fl_boundary s4 /\
-  fl_run eng req rs = fl_eval_phase eng req 5 rs s4 /\
-  s_ev (fl_run eng req rs) = s_ev s4 ++ s_ev (fl_eval_phase eng req 5 rs (fl_fresh (s_rm s4))).
+  fl_run eng req rs = fl_eval_phase req 5 rs s4 /\
+  s_ev (fl_run eng req rs) = s_ev s4 ++ s_ev (fl_eval_phase req 5 rs (fl_fresh (s_rm s4))).
 Proof.
-  exists (fold_left (fl_guarded_phase eng req rs) [1; 2; 3; 4] fl_init).
-  assert (B : fl_boundary (fold_left (fl_guarded_phase eng req rs) [1; 2; 3; 4] fl_init)).
+  exists (fold_left (fl_guarded_phase req rs) [1; 2; 3; 4] fl_init).
+  assert (B : fl_boundary (fold_left (fl_guarded_phase req rs) [1; 2; 3; 4] fl_init)).
   { cbn [fold_left]. repeat apply guarded_boundary. repeat split. discriminate. }
   split; [exact B|]. split; [reflexivity|].
   unfold fl_run. apply logging_independent. exact B.
@@ -746,8 +771,8 @@ Qed.
 
 (* every link matched: the starter's flow/disruptive actions are applied once each, in order, after the
    non-disruptive actions of all links *)
-Theorem chain_all_matched eng req p r s : fl_all_match req r = true ->
-  fl_evaluate eng req p r s =
+Theorem chain_all_matched req p r s : fl_all_match req r = true ->
+  fl_evaluate req p r s =
   add_ev (Ev p (r_id r) (negb (r_id r =? 0)))
          (fold_left (fl_apply_act eng p (r_id r)) (r_acts r) (add_rm (flat_map l_rm (r_links r)) s)).
 Proof.
@@ -756,8 +781,8 @@ Proof.
 Qed.
 
 (* some link did not match: no flow or disruptive action takes effect *)
-Theorem chain_not_all_matched eng req p r s : fl_all_match req r = false ->
-  let s' := fl_evaluate eng req p r s in
+Theorem chain_not_all_matched req p r s : fl_all_match req r = false ->
+  let s' := fl_evaluate req p r s in
   s_skip s' = s_skip s /\ s_after s' = s_after s /\ s_allow s' = s_allow s /\
   s_intr s' = s_intr s /\ s_dintr s' = s_dintr s /\
   s_ev s' = s_ev s ++ [Ev p (r_id r) false].
@@ -776,8 +801,8 @@ Proof.
 Qed.
 
 (* flow actions written on chain members never take effect *)
-Theorem chain_link_actions_inert eng req p r s :
-  fl_evaluate eng req p (fl_strip_link_acts r) s = fl_evaluate eng req p r s.
+Theorem chain_link_actions_inert req p r s :
+  fl_evaluate req p (fl_strip_link_acts r) s = fl_evaluate req p r s.
 Proof.
   unfold fl_evaluate, fl_strip_link_acts. cbn [r_links r_acts r_id].
   rewrite walk_strip_link_acts. reflexivity.
